@@ -98,6 +98,19 @@ fn render_group(
         tiny_skia::Transform::from_translate(-dx, -dy)
     };
 
+    #[cfg(resvg_verif)]
+    crate::verif_hooks::trace(|| {
+        format!(
+            "{{\"ev\":\"layer\",\"filters\":{},\"bbox\":{},\"ibbox\":{},\"max\":{},\"shift\":{},\"ts\":{}}}",
+            group.filters().len(),
+            crate::verif_hooks::rect(bbox.to_rect()),
+            crate::verif_hooks::irect(ibbox),
+            crate::verif_hooks::irect(ctx.max_bbox),
+            crate::verif_hooks::ts(shift_ts),
+            crate::verif_hooks::ts(transform),
+        )
+    });
+
     let transform = shift_ts.pre_concat(transform);
 
     let mut sub_pixmap = tiny_skia::Pixmap::new(ibbox.width(), ibbox.height())
